@@ -591,6 +591,27 @@ func c20prop(ev *evid.Rec) func(rt *rapid.T) {
 					}
 				}
 			}
+			// ... and a login the interrupted update was about to introduce can be created afresh (the administrator's natural
+			// next step when a rename did not go through) without costing any other account its file
+			if nl := ops[n-1].NewLogin; store == "acct" && nl != "" {
+				before, _ := c20dump(dj)
+				if !strings.Contains(before, fmt.Sprintf("ACCOUNT login=%q ", nl)) {
+					mk := c20op{Store: "acct", Op: "create", Login: nl, Name: "created after the crash", Access: []byte{0x40, 0, 0, 0, 0, 0, 0, 0}, Password: "$2a$04$abcdefghijklmnopqrstuuJ3TC0X0yZ0yZ0yZ0yZ0yZ0yZ0yZ0yZ0"}
+					out, _ := exec.Command(helper, dj, js(mk)).CombinedOutput()
+					after, err := c20dump(dj)
+					if err != nil {
+						rt.Fatalf("%s: %s: after the restart and a creation of %q %v\nfiles: %s", desc, where, nl, err, lsDir(dj))
+					}
+					for _, line := range strings.Split(before, "\n") {
+						if strings.HasPrefix(line, "ACCOUNT ") && !strings.Contains(after, line) {
+							rt.Fatalf("%s: %s: after the restart the creation of account %q (acknowledged: %v) made another account disappear from what the next restart loads: %s\nfiles: %s", desc, where, nl, bytes.Contains(out, []byte("ACK")), line, lsDir(dj))
+						}
+					}
+					if bytes.Contains(out, []byte("ACK")) && !strings.Contains(after, fmt.Sprintf("ACCOUNT login=%q ", nl)) {
+						rt.Fatalf("%s: %s: after the restart the creation of account %q was acknowledged but the next restart does not load it", desc, where, nl)
+					}
+				}
+			}
 			nt := first >= 0 && j > first && j <= lastMut
 			ev.Case(evid.Hash(desc, j, legacy), nt, "store:"+store, "op:"+ops[n-1].Op, fmt.Sprintf("in-window:%v", nt), fmt.Sprintf("legacy-account-migration:%v", legacy))
 			os.RemoveAll(dj)
